@@ -38,6 +38,7 @@ ASSUMPTIONS = [
     "edits that leave the payload identical (case changes, y of a 1of1 header, a corrupted digest copy in a non-first part "
     "when tolerated) may be accepted with identical data: counted as observed:accepted-identical-data",
     "cbor_decode / bcur_decode returning None is a rejection",
+    "codec calls made inside a negative parse are evaluated by their contracts but only the parse itself is registered as a distinct case",
 ]
 
 GATES = {
@@ -228,7 +229,7 @@ def _decide_receiver(label, parts, single, out, get_payload, case):
                 )
             else:
                 ctx.count("observed:%s-accepts-untagged:%s" % (label, reason))
-    if _state["register"]:
+    if _state["register"] or label != "bcur_decode":
         ctx.case((label, [hashlib.sha256(p.encode("utf-8", "replace")).digest() if isinstance(p, str) else repr(p) for p in parts]))
 
 
@@ -359,8 +360,8 @@ def install():
 
 # ---- workload ----------------------------------------------------------------------------
 PARAMS = {
-    "quick": {"codec_rand": 120, "transports": 120, "perm_sets": 1, "subst_full": 3, "subst_sampled": 4, "sampled_positions": 25, "large": 1},
-    "thorough": {"codec_rand": 4000, "transports": 4000, "perm_sets": 12, "subst_full": 60, "subst_sampled": 60, "sampled_positions": 60, "large": 6},
+    "quick": {"codec_rand": 120, "transports": 120, "perm_sets": 1, "subst_full": 5, "subst_sampled": 4, "sampled_positions": 25, "large": 1},
+    "thorough": {"codec_rand": 6000, "transports": 7000, "perm_sets": 12, "subst_full": 110, "subst_sampled": 60, "sampled_positions": 60, "large": 6},
 }
 SMALL_LENGTHS = [0, 1, 2, 3, 4, 5, 22, 23, 24, 25, 26, 254, 255, 256, 257, 258]
 LARGE_LENGTHS = [65534, 65535, 65536, 65537, 70000]
@@ -532,10 +533,12 @@ def _multi_parse(seq, orig):
     from buidl.bcur import BCURMulti
 
     _state["orig"] = orig
+    _state["register"] = False
     try:
         BCURMulti.parse(list(seq))
     except Exception:  # noqa: BLE001 - rejection (counted by the contract)
         pass
+    _state["register"] = True
     _state["orig"] = None
 
 
@@ -543,10 +546,12 @@ def _single_parse(s, orig):
     from buidl.bcur import BCURSingle
 
     _state["orig"] = orig
+    _state["register"] = False
     try:
         BCURSingle.parse(s)
     except Exception:  # noqa: BLE001
         pass
+    _state["register"] = True
     _state["orig"] = None
 
 
